@@ -88,6 +88,13 @@ Theorem C08_range_transform_exact : forall guard s lo hi q, st_gcd s <> 0 -> (gu
   end.
 Proof. exact transform_range_exact. Qed.
 
+(* BitUnpacker::get_ids_for_value_range: on widths up to the pinned 32 the range is narrowed to u32 -- nothing
+   when the lower bound exceeds u32::MAX, upper bound saturated at u32::MAX before the cast (both pinned as
+   flags and followed by the model) -- and this selects exactly the decoded values of [a, b] *)
+Theorem C08_unpacker_range_u32_path : forall w a b q, q < 2 ^ w ->
+  unpacker_in_range w a b q = (a <=? q) && (q <=? b).
+Proof. exact unpacker_in_range_plain. Qed.
+
 (* range lookup on a bit-packed column, for the code as pinned from /repo: exactly the rows holding a
    value in [lo, hi], for EVERY column, row window and range.  The proof uses `range_guard_present`,
    re-run on the regenerated constant: without the guard in the source this theorem no longer checks. *)
@@ -192,6 +199,7 @@ Print Assumptions C08_codec_stats_linear.
 Print Assumptions C08_codec_exact_blockwise.
 Print Assumptions C08_codec_stats_blockwise.
 Print Assumptions C08_range_transform_exact.
+Print Assumptions C08_unpacker_range_u32_path.
 Print Assumptions C08_range_lookup_bitpacked.
 Print Assumptions C08_range_lookup_bitpacked_unguarded.
 Print Assumptions C08_range_below_min_refuted.
